@@ -482,7 +482,9 @@ func (e *Evaluator) evalUnaryExpr(expr *ExprUnary) (*Cell, error) {
 			newValue = NewValue(v - 1)
 		}
 
-		e.evalAssignment(expr, val, NewCell(newValue))
+		if _, err := e.evalAssignment(expr, val, NewCell(newValue)); err != nil {
+			return nil, err
+		}
 
 		if expr.Postfix {
 			return NewCell(NewValue(v)), nil
@@ -936,7 +938,9 @@ func (e *Evaluator) evalStatement(stmt Statement) error {
 			}
 		}
 	case *StatementFor:
-		e.evalExpr(st.PreExpr)
+		if _, err := e.evalExpr(st.PreExpr); err != nil {
+			return err
+		}
 		loopCount := 0
 		for {
 			cell, err := e.evalExpr(st.Expr)
